@@ -95,6 +95,17 @@ AD == MonoA("vg", <<KL("midinote", <<V(60 * 64), V(62 * 64), VR(0), V(65 * 64), 
 AE == MonoA("vn", <<KL("midinote", MN(<<57, 59, 61>>)), KC("dur", V(16)), KL("legato", D32(<<32, 32, 8>>)), KC("stretch", V(64))>>)             \* gateless: /n_free
 AF == MonoA("vg", <<KL("midinote", MN(<<60, 61, 62>>)), KC("dur", V(16)), KC("legato", V(64)), KL("sustain", D32(<<4, 40, 4>>))>>)               \* legato 2 but explicit short sustains
 AI == MonoA("vg", <<KC("midinote", V(60 * 64)), KC("dur", V(8)), KC("legato", V(40))>>)                                                          \* endless, slurred
+\* Ppar as the LEFT operand of Pchain: the right operand supplies different values at every step (also to the rest
+\* that follows a child's end); children of unequal total durations
+CS == Bind(<<KC("instrument", VS("vg")), KL("midinote", MN(<<60, 62>>)), KC("dur", V(32))>>)
+CL == Bind(<<KC("instrument", VS("vn")), KL("midinote", MN(<<72, 74, 76, 77>>)), KC("dur", V(48))>>)
+CM == Bind(<<KC("instrument", VS("vx")), KL("midinote", MN(<<48, 50, 52>>)), KL("dur", D32(<<16, 16, 40>>))>>)
+RA == Bind(<<KL("amp", [i \in 1..9 |-> V(64 * i)]), KL("legato", D32(<<8, 16, 24, 32, 40, 48, 56, 64, 72>>))>>)
+RS == Bind(<<KL("pan", [i \in 1..8 |-> V(128 * i - 512)]), KL("stretch", D32(<<32, 16, 32, 64, 16, 32, 32, 64>>)), KC("legato", V(16))>>)
+RShort == Bind(<<KL("amp", [i \in 1..5 |-> V(100 * i)]), KC("legato", V(32))>>)
+ChainLeft == {Chain(Par(<<a, b>>), rr) : a \in {CS, CL, CM}, b \in {CS, CL, CM}, rr \in {RA, RS, RShort}}
+             \cup {Chain(Par(<<CS, CL, CM>>), RA), Chain(Par(<<CM, CS, CL>>), RS), Chain(SeqP(<<CS, Par(<<CS, CL>>), CM>>), RA),
+                   Chain(DurP(80, Par(<<CS, CL>>)), RA), Chain(DeltaP(12, Par(<<CL, CS>>)), RA), Chain(SeqP(<<CM, CS>>), RS)}
 Artics == {AA, AB, AC, AD, AE, AF}
 Binds == {BA, BB, BC, BR, BD, BK, BL, BG, BDef}
 FewBinds == {BA, BB, BR}
@@ -112,11 +123,13 @@ Progs1 == Binds \cup {MA, MB}
     \cup {Chain(o, a) : o \in {Over, Over2}, a \in {BA, BB, BR, BDef}}
     \cup {Par(<<m, a>>) : m \in {MA, MB}, a \in FewBinds}
     \cup {SeqP(<<m, a>>) : m \in {MA, MB}, a \in {BA}}
+    \cup ChainLeft
     \cup Artics \cup {Par(<<a, b>>) : a \in Artics, b \in {BA, BB}} \cup {SeqP(<<a, BA>>) : a \in Artics}
     \cup {DurP(x, a) : x \in {20, 40, 52}, a \in Artics \cup {AI}} \cup {Chain(o, a) : o \in {Over, Over2}, a \in {AA, AB, AC}}
     \cup {DurP(36, Par(<<AI, BA>>)), Par(<<AA, AB>>)}
     \cup {DurP(24, Par(<<MI, BA>>)), SeqP(<<DurP(20, BI), BB>>), Par(<<DurP(20, BI), BB>>), DurP(28, Chain(Over, BI))}
-Progs == CASE Mode = "artic" -> Artics \cup {Par(<<AA, BA>>), DurP(20, AI), Chain(Over, AB)}
+Progs == CASE Mode = "chainleft" -> ChainLeft
+           [] Mode = "artic" -> Artics \cup {Par(<<AA, BA>>), DurP(20, AI), Chain(Over, AB)}
            [] Mode = "tiny" -> {BA, BR, Par(<<BA, BB>>), DurP(24, BI), MA, Chain(Over, BA), DeltaP(12, BB)}
            [] Mode = "quick" -> Progs1
            [] OTHER -> Progs1 \cup {Par(<<a, b, c>>) : a \in Binds, b \in Binds, c \in {BB, MA}}
